@@ -18,7 +18,11 @@ FLAGS_fuzz        := -O1 -fsanitize=address,undefined -fno-sanitize-recover=unde
 FLAGS_tsan        := -O1 -fsanitize=thread
 FLAGS_plain-O0    := -O0
 FLAGS_plain-O2    := -O2
-CXXFLAGS := $(BASE) $(FLAGS_$(SAN))
+RC_asan := 1
+RC_asan-strict := 1
+CXXFLAGS := $(BASE) $(FLAGS_$(SAN)) $(if $(RC_$(SAN)),-DVH_WITH_RC)
+RCOBJ := $(if $(RC_$(SAN)),$(BUILD)/rc-$(SAN)/rc_cases.o)
+RCLIB := $(if $(RC_$(SAN)),-lrapidcheck)
 LDFLAGS_asan        := -fsanitize=address,undefined
 LDFLAGS_asan-strict := -fsanitize=address,undefined
 LDFLAGS_fuzz        := -fsanitize=address,undefined,fuzzer
@@ -44,12 +48,10 @@ $(OBJ)/narrow%.o: src/drv/narrow%.cpp | $(OBJ)
 	$(CXX) $(CXXFLAGS) -Wno-keyword-macro -fwrapv -fno-sanitize=signed-integer-overflow -DMEMUTILS_C='"$(REPO)/src/cbor/internal/memory_utils.c"' -MMD -MP -c $< -o $@
 $(OBJ)/drv_arithp.o: src/drv/drv_arith.cpp | $(OBJ)
 	$(CXX) $(CXXFLAGS) -DNO_INTERNALS -MMD -MP -c $< -o $@
-$(BIN)/drv_arith: $(OBJ)/drv_arith.o $(OBJ)/narrow8.o $(OBJ)/narrow16.o $(OBJ)/valloc.o $(LIB) | $(BIN)
-	$(CXX) $< $(OBJ)/narrow8.o $(OBJ)/narrow16.o $(OBJ)/valloc.o $(LIB) $(LDFLAGS) -o $@
-$(BIN)/drv_%: $(OBJ)/drv_%.o $(OBJ)/valloc.o $(LIB) | $(BIN)
-	$(CXX) $< $(OBJ)/valloc.o $(LIB) $(LDFLAGS) -o $@
-$(BIN)/rc_%: $(OBJ)/rcd_%.o $(BUILD)/rc-$(SAN)/rc_%.o $(OBJ)/valloc.o $(LIB) | $(BIN)
-	$(CXX) $< $(BUILD)/rc-$(SAN)/rc_$*.o $(OBJ)/valloc.o $(LIB) $(LDFLAGS) -lrapidcheck -o $@
+$(BIN)/drv_arith: $(OBJ)/drv_arith.o $(OBJ)/narrow8.o $(OBJ)/narrow16.o $(OBJ)/valloc.o $(RCOBJ) $(LIB) | $(BIN)
+	$(CXX) $< $(OBJ)/narrow8.o $(OBJ)/narrow16.o $(OBJ)/valloc.o $(RCOBJ) $(LIB) $(LDFLAGS) $(RCLIB) -o $@
+$(BIN)/drv_%: $(OBJ)/drv_%.o $(OBJ)/valloc.o $(RCOBJ) $(LIB) | $(BIN)
+	$(CXX) $< $(OBJ)/valloc.o $(RCOBJ) $(LIB) $(LDFLAGS) $(RCLIB) -o $@
 $(BIN)/fz_%: $(OBJ)/fz_%.o $(OBJ)/valloc.o $(LIB) | $(BIN)
 	$(CXX) $< $(OBJ)/valloc.o $(LIB) $(LDFLAGS) -o $@
 
